@@ -59,20 +59,20 @@ var shmLocks = []struct {
 }
 
 type c11Env struct {
-	c       *core.Case
-	n       *drv.Node
-	db      *litefs.DB
-	wal     bool
-	tab     *ref.LockTable
-	dbf     map[uint64]*drv.File
-	shm     map[uint64]*drv.File
-	walf    *drv.File
-	internal map[uint64]*litefs.GuardSet // internal holders by pseudo owner id
-	nextInt uint64
-	haltID  int64
+	c         *core.Case
+	n         *drv.Node
+	db        *litefs.DB
+	wal       bool
+	tab       *ref.LockTable
+	dbf       map[uint64]*drv.File
+	shm       map[uint64]*drv.File
+	walf      *drv.File
+	internal  map[uint64]*litefs.GuardSet // internal holders by pseudo owner id
+	nextInt   uint64
+	haltID    int64
 	haltOwner uint64
-	path    []string
-	tried   map[string]bool
+	path      []string
+	tried     map[string]bool
 }
 
 func (e *c11Env) violate(fp, what string) {
